@@ -12,6 +12,7 @@ HARNESSES = {
         "client": ("internal/client", "client"),
         "allocation": ("internal/allocation", "allocation"),
     },
+    "H13": {"pkg": ".", "run": "^TestVerifH13$", "streams": ["h13"], "toolchain": "go1.26.0", "timeout": (300, 600)},
     "H12": {"pkg": "./internal/allocation/", "run": "^TestVerifH12$", "streams": ["h12"], "toolchain": None, "timeout": (300, 600)},
     "H10": {"pkg": "./internal/client/", "run": "^TestVerifH10$", "streams": ["h10"], "toolchain": None, "timeout": (300, 600)},
     "H2": {"pkg": ".", "run": "^TestVerifH2$", "streams": ["h2"], "toolchain": "go1.26.0", "timeout": (900, 3000)},
@@ -234,8 +235,9 @@ PROPS["C13"] = {
 
 PROPS["C14"] = {
     "modules": ["TurnModel.Props.C14", "TurnModel.Props.C14Data", "TurnModel.Props.C14Perm"], "gen": True,
-    "harnesses": ["H6"], "view": ["k6", "kadv", "kwr", "kpw", "kclose"], "outs": None,
-    "alarms": ["probe-lost", "close-leaves-allocation", "close-ignored-438", "h6-setup", "harness-died"],
+    "harnesses": ["H6", "H13"], "view": ["k6", "kadv", "kwr", "kpw", "kclose"], "outs": None,
+    "alarms": ["probe-lost", "close-leaves-allocation", "close-ignored-438", "h6-setup", "harness-died", "application-permission-not-refreshed", "tcp-permission-interval-ignored",
+               "double-close-deallocates-again", "connect-stale-nonce-not-retried", "h13-setup"],
     "rule": "H6 runs the real turn.Client (Allocate, UDPConn with its three periodic timers, WriteTo, ReadFrom, Close) against the real turn.Server on the in-memory network "
             "under virtual time for 5 min - 2 h per history (thorough: up to 6.7 h; directed: library defaults idle 75 min, busy 65 min, worst admissible loss 130 min, Close with a stale "
             "and with a fresh nonce). Inputs per history: server lifetime / permission / channel timeouts and client refresh intervals on both sides of the theorem's Compatible "
@@ -304,7 +306,7 @@ MANIFEST_TEXT.update({
     "C05": _mt("payload identity both ways for all lengths (composition of M4 gating with the ChannelData/XOR codecs of M1 and the framer of M2), oversize dropped, "
                "inbound MTU rule, at-most-once, truthful attribution, padding shape.",
                "DESIGN.md §6 C05", "Lean 4 composition of codec round-trip and relay theorems + differential correspondence with boundary payload sizes"),
-    "C06": _mt("C06Timer: refresh_vs_expiry / never_broken_any_schedule (a Refresh racing the lifetime timer, all interleavings and any sequence; proviso regenerated from the source). granted_lifetime, reported_exact, allocate_success / refresh_success (expiry = now + granted; Refresh 0 deletes in the same step), alive_iff on every time advance, dead_is_silent.",
+    "C06": _mt("C06Reuse: never_killed_any_schedule (left-over goroutines of a deleted allocation never remove a newer one on the same 5-tuple; by-object deletion regenerated). C06Timer: refresh_vs_expiry / never_broken_any_schedule (a Refresh racing the lifetime timer, all interleavings and any sequence; proviso regenerated from the source). granted_lifetime, reported_exact, allocate_success / refresh_success (expiry = now + granted; Refresh 0 deletes in the same step), alive_iff on every time advance, dead_is_silent.",
                "DESIGN.md §6 C06", "Lean 4 theorems over symbolic time + differential correspondence under virtual time"),
     "C07": _mt("C07Timer: refresh_vs_expiry / never_broken_any_schedule (refresh of a permission/binding racing its expiry callback at the list's lock; proviso regenerated). entries_bounded invariant, create_permission_installs / channel_bind_installs (exact new expiries; ChannelBind refreshes the permission with the permission timeout), "
                "change_monotone (nothing but time shortens an entry), expires_exactly, rebind_after_expiry; entry_lives (trace form, any history: a permission / binding with expiry >= e is still held "
@@ -321,7 +323,7 @@ MANIFEST_TEXT.update({
                "in range, stable per peer, one binding per peer - NumInv preserved by every step), queue_fifo, chandata_inbound, closed_write_fails. PARTIAL: Go memory model.",
                "DESIGN.md §6 C13", "Lean 4 invariant over a state machine with server reactions as universally quantified inputs + differential correspondence with a scripted server",
                "Partial: concurrent writers modelled as interleavings of atomic steps."),
-    "C15": _mt("ledger_matches_live (no entity listed twice; count = live allocations), events_paired (over ANY history, created - deleted = 1 iff live: every prefix balances), "
+    "C15": _mt("C15Attach: nothing_left / never_leaked_any_schedule (attach vs. teardown: nothing stays attached to an ended allocation; closed-mark check regenerated). ledger_matches_live (no entity listed twice; count = live allocations), events_paired (over ANY history, created - deleted = 1 iff live: every prefix balances), "
                "step_events_exact, teardown_complete for control-connection close / relay failure / server close, expiry_teardown, closed_server_empty; "
                "tied by comparing the real EventHandler callbacks and the simulated network's socket open/close log with the model's derived events after every operation. "
                "PARTIAL: goroutines/timers are ghost state.",
